@@ -457,3 +457,28 @@ package strategy
 //@   establishes[C03,C05] ret0 != nil ==> ret0
 //@   ensures[C03] fields: ret0 != nil ==> ret1 == nil && fresh(ret0) && ret0.partitions == partitions && ret0.limit == limit && ret0.busy == 0
 //@   ensures[C03] rejects_empty: len(partitions) == 0 ==> ret0 == nil && ret1 != nil
+
+// Remaining public operations of the predicate strategy.
+//@ func (*PredicatePartitionStrategy).RemovePartitionsMatching
+//@   maintains[C03] s
+//@   loop 1 invariant[C03] kept_are_bins: -1 <= #rangeindex && #rangeindex < len(s.partitions) && (forall j int :: 0 <= j && j < len(kept) ==> kept[j] != nil && inv(kept[j]) && kept[j].limit == share(s.limit, kept[j].percent))
+//@   loop 1 invariant[C03] unchanged: s.limit == old(s.limit) && s.busy == old(s.busy) && s.partitions == old(s.partitions) && inv(s) && (forall q *strategy.PredicatePartition :: q.busy == old(q.busy) && q.limit == old(q.limit))
+//@   ensures[C03] counts_kept: s.busy == old(s.busy) && s.limit == old(s.limit) && (forall q *strategy.PredicatePartition :: q.busy == old(q.busy) && q.limit == old(q.limit))
+//@   ensures[C03] result_flag: ret1 <==> len(ret0) > 0
+//@   owns[C17]
+
+//@ func (*PredicatePartitionStrategy).BinBusyCount
+//@   requires in_range: 0 <= idx && idx < len(s.partitions)
+//@   maintains s
+//@   ensures[C03,C20] value: ret1 == nil && ret0 == int(s.partitions[idx].busy)
+//@   assigns nothing
+//@   owns[C17]
+//@   safety[C03]
+
+//@ func (*PredicatePartitionStrategy).BinLimit
+//@   requires in_range: 0 <= idx && idx < len(s.partitions)
+//@   maintains s
+//@   ensures[C03,C20] value: ret1 == nil && ret0 == int(s.partitions[idx].limit)
+//@   assigns nothing
+//@   owns[C17]
+//@   safety[C03]
